@@ -14,6 +14,7 @@ set_option linter.unusedSimpArgs false
 set_option linter.unusedVariables false
 namespace Sozu.Worker
 
+
 /-! ### the model covers the protocol -/
 
 /-- every `RequestType` variant of the generated protobuf enum is a `Kind`, in order -/
@@ -30,98 +31,67 @@ example : ¬ someDestinedFailed ⟨true, false, false, false⟩ ⟨.ok, .failure
 
 /-! ### exactly one final status -/
 
-/-- **Exactly one final status** for EVERY request kind (all 55 `RequestType`
-    variants and a request without type), whatever the proxies, the listener
-    helpers and the worker-level handlers answer. Hypotheses = what the callees
-    do as coded: proxies answer Processing to the stop verbs and only to them
-    (unless a socket deregistration fails, see `_2_finals`). The one genuinely
-    excluded point: a SoftStop is answered OK only when the session count reaches
-    `base_sessions_count` (`e.drained`) — counterexamples below. -/
+/-- **Exactly one final status, response function.** For EVERY request kind (all 55
+    `RequestType` variants and a request without type) and EVERY combination of
+    results of the proxies, the listener helpers and the worker-level handlers.
+    Hypotheses = what the callees do as coded (discharged for the stateful model by
+    `C08_history_one_final`): proxies answer Processing to the stop verbs and only
+    to them. Excluded point: a SoftStop is answered OK only when the session count
+    reaches `base_sessions_count` (`e.drained`). -/
 theorem C08_exactly_one_final_partial (k : Kind) (e : Env)
     (hproc : k ≠ .softStop → k ≠ .hardStop → NoProcessing e.proxies)
     (hstop : k = .softStop ∨ k = .hardStop → aggregate (dests k) e.proxies = some .processing)
     (hsoft : k = .softStop → e.drained = true) :
-    (finals (respond k e)).length = 1 := by
-  cases k
-  case hardStop =>
-    have ha := hstop (Or.inr rfl)
-    show (finals ((fanout .hardStop e ++ listenerTail .hardStop e) ++ [.ok])).length = 1
-    simp [fanout, ha, listenerTail, finals]
-  case softStop =>
-    have ha := hstop (Or.inl rfl)
-    have hd := hsoft rfl
-    show (finals ((fanout .softStop e ++ listenerTail .softStop e) ++ (if e.drained then [.ok] else []))).length = 1
-    simp [fanout, ha, hd, listenerTail, finals]
-  case returnListenSockets => simp [respond, finals_st]
-  case configureMetrics => simp [respond, notify, finals_st]
-  case queryMetrics => simp [respond, notify, finals_st]
-  case setMetricDetail => simp [respond, notify, finals_st]
-  case logging => simp [respond, notify, finals]
-  case queryClustersHashes => simp [respond, notify, finals]
-  case setMaxConnectionsPerIp => simp [respond, notify, finals]
-  case queryMaxConnectionsPerIp => simp [respond, notify, finals]
-  case queryClustersByDomain => simp [respond, notify, finals]
-  case queryClusterById => simp [respond, notify, finals]
-  case queryCertificatesFromWorkers =>
-    have hp := hproc (by decide) (by decide)
-    show (finals (if e.fingerprint then [st e.workerOk] else
-            fanout .queryCertificatesFromWorkers e ++ listenerTail .queryCertificatesFromWorkers e)).length = 1
-    cases hf : e.fingerprint
-    · simp only [Bool.false_eq_true, if_false]
-      rw [generic_finals _ e hp]; decide
-    · simp [finals_st]
-  case addCluster =>
-    have hp := hproc (by decide) (by decide)
-    show (finals (if e.hcValid then fanout .addCluster e ++ listenerTail .addCluster e else [.failure])).length = 1
-    cases hv : e.hcValid
-    · simp [finals]
-    · simp only [if_true]
-      rw [generic_finals _ e hp]; decide
-  case setHealthCheck =>
-    show (finals (if e.hcValid then [.ok] else [.failure])).length = 1
-    cases e.hcValid <;> simp [finals]
-  case removeHealthCheck => simp [respond, notify, notifyProxys, finals]
-  case addBackend => simp [respond, notify, notifyProxys, finals]
-  case removeBackend => simp [respond, notify, notifyProxys, finals]
-  all_goals
-    (have hp := hproc (by decide) (by decide)
-     show (finals (fanout _ e ++ listenerTail _ e)).length = 1
-     rw [generic_finals _ e hp]; decide)
+    (finals (respond k e)).length = 1 :=
+  c08_exactly_one_final_partial k e hproc hstop hsoft
 
-/-- the hypotheses are satisfiable: a RemoveListener whose TCP proxy fails -/
 example : (finals (respond .removeListener
     ⟨true, false, true, ⟨.ok, .ok, .failure, .ok⟩, true, some .tcp, false⟩)) = [.failure] := by decide
 
-/-- regression (F16, repaired in /repo 2ea09e9): request kinds nothing handles —
-    `CountRequests`, which `load_state` can forward, the main-only kinds and a
-    request without type — are refused with one Failure instead of being ignored -/
-example (e : Env) : respond .countRequests e = [.failure] ∧ respond .none e = [.failure] ∧
-    respond .listWorkers e = [.failure] := by
-  refine ⟨?_, ?_, ?_⟩
-  · show fanout .countRequests e ++ listenerTail .countRequests e = [.failure]
-    rw [fanout_nil _ e (by decide)]
-    simp [listenerTail, aggregate_none (dests .countRequests) e.proxies (by decide)]
-  · show fanout .none e ++ listenerTail .none e = [.failure]
-    rw [fanout_nil _ e (by decide)]
-    simp [listenerTail, aggregate_none (dests .none) e.proxies (by decide)]
-  · show fanout .listWorkers e ++ listenerTail .listWorkers e = [.failure]
-    rw [fanout_nil _ e (by decide)]
-    simp [listenerTail, aggregate_none (dests .listWorkers) e.proxies (by decide)]
+/-- **Exactly one final status, one request on any worker state** (the proxies'
+    answers are now computed by the model, no hypothesis on them): exactly one
+    final status, unless the request is a SoftStop that finds more listener
+    placeholders in the slab than `base_sessions_count` accounts for. -/
+theorem C08_step_one_final (s : WState) (op : Op) (hs : s.stopped = false) :
+    (finals (step s op).2.resp).length = 1 ∨ (op.kind = .softStop ∧ drainedNow s = false) :=
+  step_one_final s op hs
+
+/-- **Exactly one final status, whole histories.** For every sequence of requests
+    (ids distinct: entry i of `trace` holds the responses carrying the id of the
+    i-th handled request) from any state: every handled request has exactly one
+    final status, a HardStop anywhere included; the only exception is a SoftStop
+    arriving when `drainedNow` is false. -/
+theorem C08_history_one_final (ops : List Op) (s : WState) :
+    ∀ t ∈ trace s ops, (finals t.2.2.resp).length = 1 ∨
+      (t.2.1.kind = .softStop ∧ drainedNow t.1 = false) :=
+  c08_history_one_final ops s
+
+/-- requests behind a stop verb are not handled (the worker is gone / draining) -/
+theorem C08_nothing_after_stop (s : WState) (op : Op) (rest : List Op) (hs : s.stopped = false)
+    (h : isStop op = true) : trace s (op :: rest) = [(s, op, (step s op).2)] :=
+  c08_nothing_after_stop s op rest hs h
+
+/-- non-vacuity: a history with failures, an unhandled kind, a HardStop in the middle -/
+example : (trace WState.init [Op.addListener .http 0 true, .plain .countRequests true,
+      .addFront false ⟨3, 1, 0⟩ false false false false, .plain .hardStop true,
+      .plain .status true]).map (·.2.2.resp)
+    = [[.ok], [.failure], [.failure], [.processing, .ok]] := by decide
+
+/-- regression (F16, repaired in /repo 2ea09e9): request kinds nothing handles are
+    refused with one Failure instead of being ignored -/
+example : (step WState.init (.plain .countRequests true)).2.resp = [.failure] ∧
+    (step WState.init (.plain .none true)).2.resp = [.failure] ∧
+    (step WState.init (.plain .listWorkers true)).2.resp = [.failure] := by decide
 
 /-- no request is left without any response (SoftStop: at least its Processing) -/
 theorem C08_never_unanswered (k : Kind) (e : Env)
     (hproc : k ≠ .softStop → k ≠ .hardStop → NoProcessing e.proxies)
     (hstop : k = .softStop ∨ k = .hardStop → aggregate (dests k) e.proxies = some .processing) :
-    respond k e ≠ [] := by
-  by_cases hs : k = .softStop
-  · subst hs
-    have ha := hstop (Or.inl rfl)
-    show (fanout .softStop e ++ listenerTail .softStop e) ++ (if e.drained then [.ok] else []) ≠ []
-    simp [fanout, ha]
-  · intro h
-    have := C08_exactly_one_final_partial k e hproc hstop (fun h' => absurd h' hs)
-    rw [h] at this
-    simp [finals] at this
+    respond k e ≠ [] :=
+  c08_never_unanswered k e hproc hstop
+
+example : respond .softStop ⟨true, false, true, stopResults false, true, none, false⟩ = [.processing] := by
+  decide
 
 /-- excluded point: a SoftStop whose session count never reaches
     `base_sessions_count` is never answered -/
@@ -129,10 +99,10 @@ theorem C08_exactly_one_final_counterexample_undrained :
     finals (respond .softStop ⟨true, false, true, stopResults false, true, none, false⟩) = [] := by
   decide
 
-/-- ... and such a state is reached by a command sequence the main process
-    accepts entirely: add and activate an HTTP listener, remove it without
-    deactivating it first (`base_sessions_count` drops, the listener's slab
-    placeholder stays), SoftStop. -/
+/-- ... and such a state is reached by a command sequence the main process accepts
+    entirely: add and activate an HTTP listener, remove it without deactivating it
+    first (`base_sessions_count` drops, the listener's slab placeholder stays),
+    SoftStop (open findings F103/F104). -/
 theorem C08_exactly_one_final_counterexample_reachable :
     let ops := [Op.addListener .http 0 true, .activate (some .http) 0,
                 .removeListener (some .http) 0, .plain .softStop true]
@@ -140,9 +110,8 @@ theorem C08_exactly_one_final_counterexample_reachable :
     (run WState.init ops).2.map (·.resp) = [[.ok], [.ok], [.ok], [.processing]] := by
   decide
 
-/-- the same with a RemoveListener for an address that has no listener: the
-    HTTP proxy even answers OK, and `base_sessions_count` is decremented all the
-    same (a main process refuses that command; a worker does not) -/
+/-- the same with a RemoveListener for an address that has no listener: the HTTP proxy
+    even answers OK, and `base_sessions_count` is decremented all the same -/
 theorem C08_exactly_one_final_counterexample_bogus_rm :
     (run WState.init [Op.addListener .http 0 true, .removeListener (some .http) 7,
         .plain .softStop true]).2.map (·.resp) = [[.ok], [.ok], [.processing]] := by
@@ -154,7 +123,7 @@ example : (run WState.init [Op.addListener .http 0 true, .activate (some .http) 
     = [[.ok], [.ok], [.ok], [.ok], [.processing, .ok]] := by decide
 
 /-- as coded, a stop verb whose proxy reports a failure (a socket deregistration
-    error) gets that Failure and the OK — two final statuses -/
+    error; the stateful model never produces it) gets that Failure and the OK -/
 theorem C08_exactly_one_final_counterexample_2_finals :
     finals (respond .softStop
       ⟨true, false, true, ⟨.failure, .processing, .processing, .processing⟩, true, none, true⟩)
@@ -163,32 +132,12 @@ theorem C08_exactly_one_final_counterexample_2_finals :
       ⟨true, false, true, ⟨.failure, .processing, .ok, .ok⟩, true, none, false⟩)
       = [.failure, .ok] := by decide
 
-/-- the admissibility hypotheses of `C08_exactly_one_final_partial` for one request -/
-def Admissible (k : Kind) (e : Env) : Prop :=
-  (k ≠ .softStop → k ≠ .hardStop → NoProcessing e.proxies) ∧
-  (k = .softStop ∨ k = .hardStop → aggregate (dests k) e.proxies = some .processing) ∧
-  (k = .softStop → e.drained = true)
-
-/-- **Batches.** Every request the worker reads in one go — up to and including a
-    HardStop, behind which nothing is read any more — gets exactly one final
-    status (no hypothesis on the position of the HardStop: its handler flushes
-    the queued responses before its own OK). -/
+/-- **Batches** (response function level): every request the worker reads in one go —
+    up to and including a HardStop, wherever it sits — gets exactly one final status -/
 theorem C08_batch_one_final (rs : List (Kind × Env))
     (hok : ∀ r ∈ rs, Admissible r.1 r.2) :
-    ∀ l ∈ batchDelivered rs, (finals l).length = 1 := by
-  intro l hl
-  have key : ∃ r ∈ rs, l = respond r.1 r.2 := by
-    unfold batchDelivered at hl
-    split at hl
-    · simp only [List.mem_map] at hl
-      obtain ⟨r, hr, rfl⟩ := hl
-      exact ⟨r, List.mem_of_mem_take hr, rfl⟩
-    · simp only [List.mem_map] at hl
-      obtain ⟨r, hr, rfl⟩ := hl
-      exact ⟨r, hr, rfl⟩
-  obtain ⟨r, hr, rfl⟩ := key
-  obtain ⟨h1, h2, h3⟩ := hok r hr
-  exact C08_exactly_one_final_partial r.1 r.2 h1 h2 h3
+    ∀ l ∈ batchDelivered rs, (finals l).length = 1 :=
+  c08_batch_one_final rs hok
 
 /-- regression (repaired in /repo de8b744): a request read in the same batch as a
     HardStop that follows it keeps its answer -/
@@ -200,129 +149,21 @@ example :
 
 /-! ### the final status is Failure iff ... (as coded) -/
 
-/-- the condition under which the code answers Failure -/
-def failureCond (k : Kind) (e : Env) : Prop :=
-  match k with
-  | .configureMetrics | .queryMetrics | .setMetricDetail | .returnListenSockets => e.workerOk = false
-  | .queryCertificatesFromWorkers =>
-    if e.fingerprint then e.workerOk = false else someDestinedFailed (dests k) e.proxies
-  | .addCluster => e.hcValid = false ∨ someDestinedFailed (dests k) e.proxies
-  | .setHealthCheck => e.hcValid = false
-  | .addHttpListener | .addHttpsListener | .addTcpListener | .addUdpListener
-  | .updateHttpListener | .updateHttpsListener | .updateTcpListener | .updateUdpListener
-  | .activateListener | .deactivateListener => e.listenerOk = false
-  | .removeListener =>
-    match e.listenerType with
-    | some t => proxyOf t e.proxies = .failure
-    | none => True
-  | .logging | .queryClustersHashes | .queryClusterById | .queryClustersByDomain
-  | .setMaxConnectionsPerIp | .queryMaxConnectionsPerIp | .removeHealthCheck | .addBackend
-  | .removeBackend => False
-  -- fan-out kinds: a destined proxy failed; kinds nothing handles: always refused
-  | _ => someDestinedFailed (dests k) e.proxies ∨ hasDest (dests k) = false
-
-theorem st_eq_failure (b : Bool) : st b = .failure ↔ b = false := by cases b <;> simp [st]
-
-/-- fan-out kinds: the single response is Failure iff a destined proxy failed -/
-theorem fanout_failure (k : Kind) (e : Env) (hd : hasDest (dests k) = true)
-    (hp : NoProcessing e.proxies) :
-    finals (fanout k e) = [.failure] ↔ someDestinedFailed (dests k) e.proxies := by
-  rw [← aggregate_failure_iff]
-  unfold fanout
-  have hs := aggregate_isSome (dests k) e.proxies
-  rw [hd] at hs
-  match h : aggregate (dests k) e.proxies with
-  | some s =>
-    have hn := aggregate_noProcessing _ _ s hp h
-    simp [finals_single, hn]
-  | none => simp [h] at hs
-
-theorem generic_failure_dest (k : Kind) (e : Env) (hd : hasDest (dests k) = true)
-    (hp : NoProcessing e.proxies)
-    (ht : listenerTail k e = if (aggregate (dests k) e.proxies).isSome then [] else [.failure]) :
-    finals (fanout k e ++ listenerTail k e) = [.failure] ↔
-      (someDestinedFailed (dests k) e.proxies ∨ hasDest (dests k) = false) := by
-  have hs := aggregate_isSome (dests k) e.proxies
-  rw [hd] at hs
-  rw [ht, hs]
-  simp only [if_true, List.append_nil, hd, Bool.true_eq_false, or_false]
-  exact fanout_failure k e hd hp
-
-theorem generic_failure_nodest (k : Kind) (e : Env) (hd : hasDest (dests k) = false)
-    (ht : listenerTail k e = if (aggregate (dests k) e.proxies).isSome then [] else [.failure]) :
-    finals (fanout k e ++ listenerTail k e) = [.failure] ↔
-      (someDestinedFailed (dests k) e.proxies ∨ hasDest (dests k) = false) := by
-  rw [fanout_nil k e hd, ht, aggregate_none _ _ hd]
-  simp [finals, hd]
-
-/-- **The final status is Failure iff** the worker-level handler failed / the
-    health check is invalid / the listener step failed / some destined proxy
-    failed / nothing handles the request kind — per kind, as coded
-    (`failureCond`). The stop verbs are covered by `C08_exactly_one_final_partial`
-    (their only final status is the OK). -/
+/-- **The final status is Failure iff** the worker-level handler failed / the health
+    check is invalid / the listener step failed / some destined proxy failed /
+    nothing handles the request kind — per kind, as coded (`failureCond`). -/
 theorem C08_final_is_failure_iff (k : Kind) (e : Env)
     (hk : k ≠ .softStop) (hk' : k ≠ .hardStop) (hp : NoProcessing e.proxies) :
-    finals (respond k e) = [.failure] ↔ failureCond k e := by
-  cases k
-  case softStop => exact absurd rfl hk
-  case hardStop => exact absurd rfl hk'
-  case returnListenSockets => simp [respond, finals_st, failureCond, st_eq_failure]
-  case configureMetrics => simp [respond, notify, finals_st, failureCond, st_eq_failure]
-  case queryMetrics => simp [respond, notify, finals_st, failureCond, st_eq_failure]
-  case setMetricDetail => simp [respond, notify, finals_st, failureCond, st_eq_failure]
-  case logging => simp [respond, notify, finals, failureCond]
-  case queryClustersHashes => simp [respond, notify, finals, failureCond]
-  case queryClusterById => simp [respond, notify, finals, failureCond]
-  case setMaxConnectionsPerIp => simp [respond, notify, finals, failureCond]
-  case queryMaxConnectionsPerIp => simp [respond, notify, finals, failureCond]
-  case queryClustersByDomain => simp [respond, notify, finals, failureCond]
-  case removeHealthCheck => simp [respond, notify, notifyProxys, finals, failureCond]
-  case addBackend => simp [respond, notify, notifyProxys, finals, failureCond]
-  case removeBackend => simp [respond, notify, notifyProxys, finals, failureCond]
-  case setHealthCheck =>
-    show finals (if e.hcValid then [.ok] else [.failure]) = [.failure] ↔ e.hcValid = false
-    cases e.hcValid <;> simp [finals]
-  case queryCertificatesFromWorkers =>
-    show finals (if e.fingerprint then [st e.workerOk] else
-          fanout .queryCertificatesFromWorkers e ++ listenerTail .queryCertificatesFromWorkers e) = [.failure]
-        ↔ (if e.fingerprint then e.workerOk = false else someDestinedFailed (dests .queryCertificatesFromWorkers) e.proxies)
-    cases hf : e.fingerprint
-    · simp only [Bool.false_eq_true, if_false]
-      have := generic_failure_dest .queryCertificatesFromWorkers e (by decide) hp rfl
-      simpa [show hasDest (dests .queryCertificatesFromWorkers) = true by decide] using this
-    · simp [finals_st, st_eq_failure]
-  case addCluster =>
-    show finals (if e.hcValid then fanout .addCluster e ++ listenerTail .addCluster e else [.failure]) = [.failure]
-        ↔ (e.hcValid = false ∨ someDestinedFailed (dests .addCluster) e.proxies)
-    cases hv : e.hcValid
-    · simp [finals]
-    · simp only [if_true, Bool.true_eq_false, false_or]
-      have := generic_failure_dest .addCluster e (by decide) hp rfl
-      simpa [show hasDest (dests .addCluster) = true by decide] using this
-  case removeListener =>
-    show finals (fanout .removeListener e ++ listenerTail .removeListener e) = [.failure] ↔ _
-    rw [fanout_nil _ e (by decide)]
-    simp only [List.nil_append, listenerTail, failureCond]
-    cases h : e.listenerType with
-    | none => simp [finals]
-    | some t =>
-      have := proxyOf_noProcessing t e.proxies hp
-      simp [finals_single, this]
-  all_goals first
-    | (show finals (fanout _ e ++ listenerTail _ e) = [.failure] ↔ _
-       rw [fanout_nil _ e (by decide)]
-       simp [listenerTail, failureCond, finals_st, st_eq_failure]
-       done)
-    | exact generic_failure_dest _ e (by decide) hp rfl
-    | exact generic_failure_nodest _ e (by decide) rfl
+    finals (respond k e) = [.failure] ↔ failureCond k e :=
+  c08_final_is_failure_iff k e hk hk' hp
 
 example : failureCond .addHttpFrontend ⟨true, false, true, ⟨.failure, .ok, .ok, .ok⟩, true, none, false⟩ := by
   show someDestinedFailed _ _ ∨ _
   left; decide
 
 /-- "Failure iff the target is missing" is *not* what the code does: removing a
-    backend nobody added, and removing an HTTP listener that does not exist,
-    are answered OK (the main process' state refuses both) -/
+    backend nobody added, and removing an HTTP listener that does not exist, are
+    answered OK (the main process' state refuses both) -/
 theorem C08_final_is_failure_iff_counterexample :
     (step WState.init (.removeBackend 0 0 0)).2.resp = [.ok] ∧
     (step WState.init (.removeBackend 0 0 0)).2.accepted = false ∧
@@ -333,95 +174,37 @@ theorem C08_final_is_failure_iff_counterexample :
 
 /-! ### the worker's view converges on the main process' view -/
 
-theorem dispatchView_rejected (v : View) (op : Op) (h : (dispatchView v op).2 = false) :
-    (dispatchView v op).1 = v := by
-  cases op <;> simp only [dispatchView] at h ⊢ <;> (repeat' split at h) <;> (repeat' split) <;> simp_all
-
-theorem dispatchView_unreached (v : View) (op : Op)
-    (h : reachesDispatch op.kind (fingerprintOf op) = false) : (dispatchView v op).1 = v := by
-  cases op with
-  | plain k ok => simp [dispatchView]
-  | queryCerts f' found => simp [dispatchView]
-  | queryCluster c => simp [dispatchView]
-  | setHealthCheck c valid => simp [dispatchView]
-  | removeHealthCheck c => simp [dispatchView]
-  | updateListener t a valid => simp [dispatchView]
-  | removeCert a hv => simp [dispatchView]
-  | replaceCert a hv nv => simp [dispatchView]
-  | addListener t a valid => cases t <;> simp [reachesDispatch, Op.kind] at h
-  | addFront tls f' b1 b2 b3 b4 => cases tls <;> simp [reachesDispatch, Op.kind] at h
-  | removeFront tls f' b1 b2 b3 => cases tls <;> simp [reachesDispatch, Op.kind] at h
-  | addL4Front udp a c => cases udp <;> simp [reachesDispatch, Op.kind] at h
-  | removeL4Front udp a c => cases udp <;> simp [reachesDispatch, Op.kind] at h
-  | addCluster c hv tv kn => simp [reachesDispatch, Op.kind] at h
-  | removeCluster c => simp [reachesDispatch, Op.kind] at h
-  | addBackend c b a => simp [reachesDispatch, Op.kind] at h
-  | removeBackend c b a => simp [reachesDispatch, Op.kind] at h
-  | activate t a => simp [reachesDispatch, Op.kind] at h
-  | deactivate t a => simp [reachesDispatch, Op.kind] at h
-  | removeListener t a => simp [reachesDispatch, Op.kind] at h
-  | addCert a valid => simp [reachesDispatch, Op.kind] at h
-
-/-- one step of a running worker updates its `config_state` with the same
-    `dispatch` the main process uses, whatever the proxies answered -/
+/-- one step of a running worker updates its `config_state` with the same `dispatch`
+    the main process uses, whatever the proxies answered -/
 theorem C08_step_view (s : WState) (op : Op) (hs : s.stopped = false) :
-    (step s op).1.view = workerViewStep s.view op := by
-  simp only [step, hs, workerViewStep]
-  cases h : dispatchView s.view op
-  simp
+    (step s op).1.view = workerViewStep s.view op :=
+  c08_step_view s op hs
 
-theorem step_stopped (s : WState) (op : Op) (hs : s.stopped = false)
-    (hk : op.kind ≠ .softStop ∧ op.kind ≠ .hardStop) : (step s op).1.stopped = false := by
-  simp only [step, hs]
-  cases h : dispatchView s.view op
-  simp [hk.1, hk.2]
+/-- **View convergence, every command sequence** (stop verbs included, cluster
+    updates with their routing knobs included: the view holds them). The main
+    process dispatches `ops` on its state and forwards what it accepted; the worker
+    handles that up to the first stop verb; its queryable view then equals the main
+    process' view at that point, whatever the proxies answered. -/
+theorem C08_view_converges (ops : List Op) (s : WState) (hs : s.stopped = false) :
+    (runState s (forwarded s.view ops)).view = masterRun s.view (untilStop ops) :=
+  c08_view_converges_all ops s hs
 
-/-- **View convergence.** Start a worker and a main process from the same view;
-    let the main process dispatch any command sequence on its state and forward
-    the commands it accepted (no stop verb: a stopped worker has no view any
-    more). Whatever the proxies answered, the worker's queryable view equals the
-    main process' view. -/
-theorem C08_view_converges (ops : List Op) (s : WState) (hs : s.stopped = false)
-    (hk : ∀ op ∈ ops, op.kind ≠ .softStop ∧ op.kind ≠ .hardStop) :
-    (runState s (forwarded s.view ops)).view = masterRun s.view ops := by
-  induction ops generalizing s with
-  | nil => simp [forwarded, runState, masterRun]
-  | cons op rest ih =>
-    have hk0 := hk op (by simp)
-    have hkr : ∀ o ∈ rest, o.kind ≠ .softStop ∧ o.kind ≠ .hardStop := fun o ho => hk o (by simp [ho])
-    simp only [forwarded, masterRun, List.foldl_cons]
-    by_cases hacc : (dispatchView s.view op).2 = true
-    · simp only [hacc, if_true]
-      simp only [runState, List.foldl_cons]
-      have hview : (step s op).1.view = (dispatchView s.view op).1 := by
-        rw [C08_step_view s op hs]
-        unfold workerViewStep
-        by_cases hr : reachesDispatch op.kind (fingerprintOf op) = true
-        · simp [hr]
-        · have hr' : reachesDispatch op.kind (fingerprintOf op) = false := by simpa using hr
-          simp only [hr', Bool.false_eq_true, if_false]
-          exact (dispatchView_unreached s.view op hr').symm
-      have hst := step_stopped s op hs hk0
-      have := ih (step s op).1 hst hkr
-      rw [hview] at this
-      simpa [runState, masterRun] using this
-    · -- refused by the main process: not forwarded, and its state is unchanged
-      have hacc' : (dispatchView s.view op).2 = false := by simpa using hacc
-      simp only [hacc', Bool.false_eq_true, if_false]
-      rw [dispatchView_rejected s.view op hacc']
-      have := ih s hs hkr
-      simpa [masterRun] using this
-
-/-- non-vacuity: a sequence with accepted and refused commands -/
+/-- non-vacuity: refused commands, a cluster update, a stop verb in the middle -/
 example :
     let ops := [Op.addCluster 1 true true 0, .removeBackend 1 0 0, .addBackend 1 0 0,
-                .addFront false ⟨0, 7, 1⟩ false false false false, .plain .status true]
+                .addCluster 1 true true 3, .addFront false ⟨0, 7, 1⟩ false false false false,
+                .plain .softStop true, .addCluster 2 true true 0]
     forwarded View.empty ops = [Op.addCluster 1 true true 0, .addBackend 1 0 0,
-                .addFront false ⟨0, 7, 1⟩ false false false false, .plain .status true] ∧
-    (runState WState.init (forwarded View.empty ops)).view.httpFronts = [⟨0, 7, 1⟩] := by decide
+                .addCluster 1 true true 3, .addFront false ⟨0, 7, 1⟩ false false false false,
+                .plain .softStop true, .addCluster 2 true true 0] ∧
+    (runState WState.init (forwarded View.empty ops)).view.clusters = [(1, 3)] ∧
+    (masterRun View.empty (untilStop ops)).clusters = [(1, 3)] ∧
+    (masterRun View.empty ops).clusters = [(2, 0), (1, 3)] := by decide
 
-/-- the main process forwards what its state accepted even if the worker then
-    answers Failure, and the worker's view takes the command all the same: -/
+/-! ### behaviour vs view -/
+
+/-- the main process forwards what its state accepted even if the worker then answers
+    Failure, and the worker's view takes the command all the same (F8/F22): -/
 theorem C08_view_matches_behaviour_counterexample :
     let ops := [Op.addCluster 0 true true 0, .addFront false ⟨0, 5, 0⟩ false false false false,
                 .addListener .http 0 true, .activate (some .http) 0]
@@ -429,6 +212,28 @@ theorem C08_view_matches_behaviour_counterexample :
     (run WState.init ops).2.map (·.resp) = [[.ok], [.failure], [.ok], [.ok]] ∧
     viewRoutes (run WState.init ops).1.view = [(false, 0, 5)] ∧
     servedRoutes (run WState.init ops).1 = [] := by decide
+
+/-- **Routing tables vs view, the part that holds on the unchanged code.** Over whole
+    histories, commands on clusters (updates included), backends, health checks,
+    certificates, listener patches, queries and worker-level verbs (`routeNeutral`)
+    keep the proxies' HTTP/HTTPS routing tables in step with the frontends of the
+    view (`RoutesSync`: per protocol and address, the same frontend keys). NOT
+    covered, because false on the unchanged code or not carried by the model:
+    frontend commands (F8/F22 counterexample above: a frontend accepted before its
+    listener exists, or carrying hsts / an uncompilable regex), listener commands
+    (open findings F103-F109: Remove of an active listener, Deactivate then Activate,
+    Remove then Add again, slab-token reuse after Deactivate) and the stop verbs. -/
+theorem C08_behaviour_matches_view_partial (ops : List Op) (s : WState) (hs : s.stopped = false)
+    (hn : ∀ op ∈ ops, routeNeutral op = true) (h : RoutesSync s) : RoutesSync (runState s ops) :=
+  c08_behaviour_matches_view_partial ops s hs hn h
+
+/-- non-vacuity: a synchronised state with a route, then neutral commands -/
+example :
+    let s := runState WState.init [Op.addListener .http 0 true, .activate (some .http) 0,
+                .addFront false ⟨0, 5, 0⟩ false false false false]
+    routeKeys s false 0 = [5] ∧ viewKeys s.view false 0 = [5] ∧ s.stopped = false ∧
+    [Op.addCluster 0 true true 1, .addBackend 0 0 0, .plain .status true].all routeNeutral = true := by
+  decide
 
 /-- when the worker's answers agree with the main process' verdicts the two coincide -/
 example :
@@ -439,8 +244,7 @@ example :
     viewRoutes (run WState.init ops).1.view = servedRoutes (run WState.init ops).1 := by decide
 
 /-- AddCluster is an upsert on both sides: a second AddCluster of a known id with
-    other routing knobs replaces the configuration in the view (what
-    QueryClusterById reports) and in the plain-HTTP proxy (what it routes with) -/
+    other routing knobs replaces the configuration in the view and in the plain-HTTP proxy -/
 example :
     let ops := [Op.addCluster 0 true true 0, .addCluster 0 true true 1]
     forwarded View.empty ops = ops ∧
